@@ -224,7 +224,7 @@ def check_case(res, lengths, variant, share):
 # The per-case check above asks its questions in one fixed order. Here every sequence of observations up to a depth is run
 # on a fresh collection (all orders, with repetition): a lazily cached answer computed by one observation must not change
 # what a later one returns. Reference = the same list concatenation for every step.
-SEQ_OPS = ["len", "items", "items_rev", "mazes", "lengths", "n_mazes", "update_self_config", "iter", "getitem_last"]
+SEQ_OPS = ["len", "items", "items_rev", "items_zigzag", "mazes", "lengths", "n_mazes", "to_fname", "update_self_config", "getitem_last"]
 
 
 def seq_vectors(tier):
@@ -240,8 +240,10 @@ def seq_step(coll, concat, lengths, op, variant):
     if op == "len":
         n = len(coll)
         return None if n == total else ("len_wrong", f"len = {n}, expected {total}")
-    if op in ("items", "items_rev"):
-        order = range(total) if op == "items" else range(total - 1, -1, -1)
+    if op in ("items", "items_rev", "items_zigzag"):
+        order = list(range(total)) if op == "items" else list(range(total - 1, -1, -1))
+        if op == "items_zigzag":  # every ordered pair of indices read one after the other
+            order = [x for a in range(total) for b in range(total) for x in (a, b)]
         for g in order:
             if coll[g] is not concat[g][2]:
                 return ("item_wrong", f"collection[{g}] is {describe(coll[g])}, expected maze {concat[g][1]} of member {concat[g][0]}")
@@ -262,20 +264,17 @@ def seq_step(coll, concat, lengths, op, variant):
             return ("lengths_wrong", f"dataset_lengths = {dl}, dataset_cum_lengths = {dc}")
         return None
     if op == "n_mazes":
-        if variant == "declared" and coll.cfg.n_mazes != total:
-            return ("n_mazes_wrong", f"cfg.n_mazes = {coll.cfg.n_mazes}, expected {total}")
+        nm = coll.cfg.n_mazes  # always read (an observation may leave something behind), judged only where the counts are declared to agree
+        if variant == "declared" and nm != total:
+            return ("n_mazes_wrong", f"cfg.n_mazes = {nm}, expected {total}")
+        return None
+    if op == "to_fname":
+        coll.cfg.to_fname()
         return None
     if op == "update_self_config":
         coll.update_self_config()
         if coll.cfg.n_mazes != total:
             return ("n_mazes_wrong_after_update", f"cfg.n_mazes = {coll.cfg.n_mazes} after update_self_config(), expected {total}")
-        return None
-    if op == "iter":
-        got = []
-        for g in range(total):
-            got.append(coll[g])
-        if len(got) != total:
-            return ("iter_wrong", f"{len(got)} items")
         return None
     raise KeyError(op)
 
@@ -334,7 +333,7 @@ def run(ctx):
     )
     ctx.rule = ("every member-length vector up to the bound (all zero patterns included), member j on its own grid size, every index "
                 "0 <= i <= len, four constructions (declared / shrunk-by-one member counts x shared / copied member configs); "
-                "every sequence of up to 3 observations over 9 observation kinds (all orders, with repetition) on fresh collections of 10 (15) representative vectors; "
+                "every sequence of up to 3 observations over 10 observation kinds (all orders, with repetition) on fresh collections of 10 (15) representative vectors; "
                 "distinct = distinct (vector, construction, index), (vector, construction) and (vector, construction, observation sequence)")
     ctx.exhaustive = True
     ctx.assumptions += ["member mazes are fixed comb-tree mazes with a shortest-path solution (maze content plays no role in the indexing code)",
